@@ -4,9 +4,11 @@
            after AddKey    : ((label value|()) ...) = TableMethod.function, then
                              the indices of pumping_subuniverse()
            after IsPumping : 0/1
-           or (-1) when the fuel runs out. *)
+           or (-1) when the fuel runs out — which cannot happen: the fuel is
+           fuel_bound ops (TerminationDefs.v), proved sufficient for every history
+           (TerminationRun.run_terminates; run_obs_never_out_of_fuel below). *)
 From Coq Require Import ZArith List Bool.
-From CSS Require Import Base.Sx Forest.Spec Forest.Model.
+From CSS Require Import Base.Sx Forest.Spec Forest.Model Forest.TerminationDefs Forest.TerminationRun.
 From CSS Require Import Gen.Prelude Gen.ForestCanGiveTerms Gen.ForestComputeShift Gen.ForestPreimageGap.
 Import ListNotations.
 Open Scope Z_scope.
@@ -22,16 +24,8 @@ Definition dec_op (s : sx) : op :=
 Definition enc_fun (st : tm) : sx :=
   L (map (fun p => L [of_nat (fst p); of_optZ (snd p)]) (function_dict st)).
 
-Definition fuel_for (ops : list op) : nat :=
-  let ks := keys_of ops in
-  let nr := Z.of_nat (length ks) in
-  let ml := fold_right (fun o m => match o with
-                                   | AddKey r => fold_right (fun cs m => Z.max (Z.of_nat (fst cs)) m)
-                                                            (Z.max (Z.of_nat (parent r)) m) (kids r)
-                                   | IsPumping c => Z.max (Z.of_nat c) m
-                                   end) 0 ops in
-  let g := fold_right (fun r m => Z.max (max_abs r) m) 1 ks in
-  Z.to_nat ((ml + 3) * (ml + 3) * (g + 2) * (nr + 1) * 2 + nr + 100).
+(* the fuel the harness gives the model: the PROVED bound *)
+Definition fuel_for (ops : list op) : nat := fuel_bound ops.
 
 Definition pick0 (_ : list nat) : nat := O.
 
@@ -46,6 +40,26 @@ Fixpoint run_obs (fuel : nat) (st : tm) (ops : list op) : list sx :=
   | IsPumping c :: t =>
       let '(st', b) := is_pumping st c in of_bool b :: run_obs fuel st' t
   end.
+
+(* an out-of-fuel answer is impossible: agreement of model and implementation
+   can never be an artefact of the fuel *)
+Lemma run_obs_some fuel : forall ops st st',
+  run pick0 fuel st ops = Some st' -> ~ In (L [I (-1)]) (run_obs fuel st ops).
+Proof.
+  induction ops as [|o ops IH]; intros st st' H; simpl in *; [tauto|].
+  destruct o as [r|c]; simpl in H.
+  - destruct (add_rule_key pick0 fuel st r) as [st1|] eqn:E; [|discriminate].
+    intros [A|A]; [discriminate|]. exact (IH _ _ H A).
+  - intros [A|A]; [destruct (getf (fn st) c); discriminate|].
+    exact (IH _ _ H A).
+Qed.
+
+Theorem run_obs_never_out_of_fuel : forall ops,
+  ~ In (L [I (-1)]) (run_obs (fuel_for ops) init ops).
+Proof.
+  intros ops. destruct (run_terminates pick0 ops (fuel_for ops) (Nat.le_refl _)) as [st H].
+  exact (run_obs_some _ _ _ _ H).
+Qed.
 
 (* validation of the translator: the definitions REGENERATED from forest.py
    evaluated on explicit arguments
